@@ -107,8 +107,21 @@ pub fn gen_exec_scenario(id: &str, run_seed: u64) -> Result<Scenario, String> {
     let n_ops = rng.range(1, 6);
     let n_funcs = base.funcs.len();
     let mut used: Vec<(usize, u32)> = vec![];
+    let mut added_probe_imports: Vec<u32> = vec![];
+    let mut n_added_funcs = 0u32;
     for _ in 0..n_ops {
         let c = rng.below(n_clients);
+        if p.edits && rng.chance(1, 6) {
+            // a second probe import, added through the API: probes of later sites may call it (its ID is
+            // re-mapped when encoding, unlike the IDs of the four original host imports)
+            if let Some(ty) = base.imports.get(F_PROBE as usize).and_then(|i| match i.kind { crate::spec::ImpKind::Func(t) => Some(t), _ => None }) {
+                clients[c].push(Op::AddImportFunc { module: "envx".into(), name: "probe".into(), ty, tag: None });
+                schedule.push(c as u8);
+                added_probe_imports.push(N_HOST + n_funcs as u32 + n_added_funcs);
+                n_added_funcs += 1;
+                continue;
+            }
+        }
         if p.edits && rng.chance(1, 4) {
             // an unrelated, index-shifting edit
             let op = match rng.below(3) {
@@ -132,6 +145,9 @@ pub fn gen_exec_scenario(id: &str, run_seed: u64) -> Result<Scenario, String> {
                     tag: None,
                 },
             };
+            if matches!(op, Op::AddImportFunc { .. }) {
+                n_added_funcs += 1;
+            }
             clients[c].push(op);
             schedule.push(c as u8);
             continue;
@@ -153,6 +169,9 @@ pub fn gen_exec_scenario(id: &str, run_seed: u64) -> Result<Scenario, String> {
             used.push((fi, instr));
             let magic = st.probe_magic();
             let mut body = probe_body(magic);
+            if !added_probe_imports.is_empty() && rng.chance(1, 2) {
+                body[1] = Ins::Call(*rng.pick(&added_probe_imports));
+            }
             if mode == Mode::Alternate {
                 // a neutral replacement: the probe, then the instruction itself; one per instruction
                 if clients.iter().flatten().any(|o| matches!(o, Op::Inject { func: f, sites: s, .. } if *f == func && s.iter().any(|x| x.instr == instr && x.mode == Mode::Alternate)))
@@ -188,7 +207,8 @@ pub fn gen_exec_scenario(id: &str, run_seed: u64) -> Result<Scenario, String> {
         clients,
         schedule,
         scheduler: "uniform".into(),
-        tail: match rng.below(6) {
+        tail: match rng.below(7) {
+            6 => vec![Tail::PullSideEffects, Tail::Encode],
             0 => vec![Tail::Encode, Tail::Encode],
             1 => vec![Tail::EmitFail(crate::exec::FailKind::Enospc), Tail::Encode],
             _ => vec![Tail::Encode],
@@ -516,7 +536,8 @@ pub fn judge_exec(id: &str, sc: &Scenario, stats: &mut ExecStats) -> (Judged, Ru
         }
         // added globals sit at other indices: compare the program's own two globals by value order
         let ni = inst_mod.num_imp_globals() as usize;
-        if t.globals.len() < ni + 2 || o.globals.len() < 2 || t.globals[ni..ni + 2] != o.globals[..2] {
+        let ng = o.globals.len().min(2);
+        if t.globals.len() < ni + ng || t.globals[ni..ni + ng] != o.globals[..ng] {
             push("C16", Mismatch::new("exec_state_diff", "globals", format!("{name}{:?}: {:?} vs {:?}", args, o.globals, t.globals)), &mut owned, &mut others);
         }
         if o.mem_digest != t.mem_digest {
